@@ -389,3 +389,33 @@ Fixpoint sb_run (announced : Z) (b : sbuf) (evs : list sbev) : sbuf * list Z :=
   | e :: r => let '(b1, g) := sb_step announced b e in
               let '(b2, gs) := sb_run announced b1 r in (b2, g :: gs)
   end.
+
+(* ------------------------------------------------------------------ *)
+(** * The connection-level receive window we grant a peer
+
+    [icw] = the configured [initial_connection_window] (clamped to
+    65535 .. 2^31-1).  A connection starts with the RFC default 65535 granted;
+    the window is enlarged ONCE by [icw - 65535] (after the preface on a
+    frontend, after the backend's first SETTINGS on a backend connection);
+    afterwards [on_data_credit] returns what was received once it reaches
+    [icw / 2].  State: total credit granted, wire bytes consumed, the bytes
+    received since the last WINDOW_UPDATE, whether the enlargement was done.
+    [once] = the repair 2026-09: before it every later SETTINGS frame of a
+    backend enlarged the window again. *)
+Record crecv := mkcrecv { cr_granted : Z; cr_consumed : Z; cr_acc : Z; cr_enlarged : bool }.
+
+Inductive crev :=
+| CEnlarge                (* the enlargement point is reached (preface done / a SETTINGS frame of the backend) *)
+| CData (wire : Z).       (* a DATA frame of [wire] flow-controlled bytes *)
+
+Definition crecv_new : crecv := mkcrecv DEFAULT_INITIAL_WINDOW_SIZE 0 0 false.
+
+Definition crecv_step (once : bool) (icw : Z) (s : crecv) (e : crev) : crecv :=
+  match e with
+  | CEnlarge =>
+    if once && cr_enlarged s then s
+    else mkcrecv (cr_granted s + Z.max 0 (icw - DEFAULT_INITIAL_WINDOW_SIZE)) (cr_consumed s) (cr_acc s) true
+  | CData wire =>
+    let '(acc', cwu, _) := on_data_credit (cr_acc s) (icw / 2) wire false in
+    mkcrecv (cr_granted s + match cwu with Some c => c | None => 0 end) (cr_consumed s + wire) acc' (cr_enlarged s)
+  end.
